@@ -52,7 +52,7 @@ type PGOp struct {
 	Pad  Blob   `json:"pad,omitempty"`
 	// simple: result sets / tags; copy: data rows
 	Results []PGResult `json:"results,omitempty"`
-	Err     bool       `json:"err,omitempty"` // ends with an ErrorResponse instead
+	Err     bool       `json:"err,omitempty"`   // ends with an ErrorResponse instead
 	Async   []string   `json:"async,omitempty"` // asynchronous messages interleaved: notice, notification, param
 	TxState byte       `json:"tx,omitempty"`
 	// copy
@@ -450,7 +450,9 @@ func (c PGCase) script(w *world) []pgturn {
 		}
 		return append(out, rfq('I'))
 	}
-	pw := func(s string, label string) pgmsg { return pgmsg{data: enc(&pgproto3.PasswordMessage{Password: s}), label: label} }
+	pw := func(s string, label string) pgmsg {
+		return pgmsg{data: enc(&pgproto3.PasswordMessage{Password: s}), label: label}
+	}
 	switch st.Auth {
 	case "ok":
 		first.server = final()
@@ -811,7 +813,7 @@ func CheckPG(c PGCase) (hx.Vs, []string, bool) {
 		return b
 	}}
 	turns := c.script(wd)
-	timeout := 6 * time.Second
+	timeout := 2500 * time.Millisecond
 	r, err := runPG(c, turns, timeout)
 	if err != nil {
 		vs.Add("harness:start", "%v\n%s", err, schemaYAML(c.Schema))
@@ -912,7 +914,7 @@ func (c PGCase) classes(cl classSet) {
 
 func TestPGRelay(t *testing.T) {
 	R.Rule("TestPGRelay", "a PostgreSQL session through acra's real proxy (nothing configured) between a scripted client and a scripted backend, messages encoded by pgproto3: start-up (optionally SSLRequest refused first; AuthenticationOk / cleartext / MD5 / SASL exchanges / FATAL error; ParameterStatus*, BackendKeyData, optional Notice, ReadyForQuery), then 1-6 cycles: simple query (1-3 result sets with RowDescription/DataRow*/CommandComplete, bare tags, EmptyQueryResponse, ErrorResponse; NoticeResponse / NotificationResponse / ParameterStatus interleaved), COPY IN (CopyData*, CopyDone or CopyFail) and COPY OUT, extended protocol (Parse/Describe/Bind/Execute/Sync, optional Flush after Parse, row limit with PortalSuspended and a second Execute, re-use of named statements, Close), FunctionCall, asynchronous messages between cycles, Terminate; values NULL / empty / lengths at 250,251 / 65535,65536. Oracle: both byte streams identical at both ends, no panic, session not closed or wedged. Non-trivial: at least one cycle after start-up")
-	hx.Checks(40, 400)
+	hx.Checks(300, 1200)
 	rapid.Check(t, func(rt *rapid.T) {
 		c := genPGRelayCase(rt)
 		vs, classes, nt := CheckPG(c)
